@@ -16,6 +16,7 @@ for dp, dn, fn in os.walk(os.path.join(root, "inference")):
             names = sorted(d)
             d = {k: v for k, v in d.items() if v}
             d["__all__"] = names          # every function of the file (a function that is not listed is new)
+            d["__params__"] = {qn: [a.arg for a in node.args.args] for qn, node in iter_functions(tree)}
             out[rel] = d
 json.dump(out, open(os.path.join(os.path.dirname(os.path.abspath(__file__)), "..", "sa", "reference_locals.json"), "w"), indent=0, sort_keys=True)
 print(sum(len(v["__all__"]) for v in out.values()), "functions recorded")
